@@ -11,7 +11,7 @@ import (
 )
 
 // VH_C19_metaonly: metadata-only receive on the model file system. The source announces
-// [".fsutil-metadata"?, "d", "d/f"?, "e"?]; a solver-chosen selector picks entries. Afterwards the
+// [".fsutil-metadata"?, "d", "d/f"?, "d2"?, "d2/g"?, "e"?]; a solver-chosen selector picks entries. Afterwards the
 // destination holds exactly the selected entries plus the ancestors they need, REQs went out only
 // for selected regular files under the sender's ids, and the listing file decodes to one record per
 // announced stat (own name excepted) in stream order.
@@ -38,11 +38,23 @@ func VH_C19_metaonly() {
 	if v.Bool("has-d/f") {
 		add("d/f", clsFile)
 	}
-	switch v.Choose("class-e", 3) {
+	// "d2": a sibling whose name has the directory name "d" as a string prefix without being inside it
+	switch v.Choose("class-d2", 3) {
 	case 1:
-		add("e", clsFile)
+		add("d2", clsFile)
 	case 2:
-		add("e", clsDir)
+		add("d2", clsDir)
+		if v.Bool("has-d2/g") {
+			add("d2/g", clsFile)
+		}
+	}
+	if v.Param("E", 0) != 0 {
+		switch v.Choose("class-e", 3) {
+		case 1:
+			add("e", clsFile)
+		case 2:
+			add("e", clsDir)
+		}
 	}
 	selected := map[string]bool{}
 	for _, e := range src {
